@@ -27,7 +27,7 @@ CellChoices(n) ==
        \cup { [k |-> "ptr", t |-> t] : t \in ({0, 4, n} \cap (0..n)) }
 
 LabelConfigs ==
-  IF Focus = "c04" THEN { <<>>, << <<"zero", <<StrL>>>> >> }
+  IF Focus = "c04" THEN { <<>>, << <<"zero", <<StrL>>>> >>, << <<"zero", <<StrM, StrL>>>>, <<"four", <<StrL>>>> >> }
   ELSE { <<>>,
          << <<"zero", <<StrL>>>> >>,
          << <<"four", <<StrL, StrM>>>> >>,
@@ -123,6 +123,11 @@ AccessEvents(s) ==
      \cup { Rec(p \o "write_label", a, 0, FALSE, StrM, 0, "") : p \in {"", "s_"}, a \in CA }
      \cup { Rec(p \o o, a, 0, FALSE, <<>>, 0, "") : p \in {"", "s_"}, o \in {"delete_string", "delete_pointer"}, a \in CA }
      \cup { Rec("delete_labels", a, 0, FALSE, <<>>, 0, "") : a \in CA }
+     \* further observers / label editing (informational conformance)
+     \cup { Rec("delete_label", a, k, FALSE, <<>>, 0, "") : a \in CA, k \in {0, 1, 2} }
+     \cup { Rec("s_read_label", a, k, FALSE, <<>>, 0, "") : a \in CA, k \in {0, 1, 2} }
+     \cup { Rec("get_labels", 0, 0, FALSE, <<>>, 0, ""), Rec("pointer_destinations", 0, 0, FALSE, <<>>, 0, "") }
+     \cup { Rec("find_label", 0, 0, FALSE, nm, 0, "") : nm \in {StrL, StrM, StrA} }
 
 Events(s) == IF Focus = "c04" THEN AccessEvents(s) ELSE StructEvents(s) \cup AnnotEvents(s)
 
